@@ -21,14 +21,23 @@ try:
         mf=f'{V}/seeded/{n}/meta.json'; m=json.load(open(mf))
         r=subprocess.run(['git','-C',wt,'apply',f'{V}/seeded/{n}/patch.diff'],capture_output=True,text=True)
         if r.returncode!=0:
-            print(n,'PATCH DOES NOT APPLY',r.stderr.strip()[:100],flush=True); continue
+            print(n,'PATCH DOES NOT APPLY',r.stderr.strip()[:100],flush=True)
+            m['applies_to_head']=False; m['detect_with']=[]
+            json.dump(m,open(mf,'w'),indent=1,ensure_ascii=False); continue
         try:
             out=subprocess.run([binp,'check','all','--tier','quick','--repo',wt,'--verif',vroot],capture_output=True,text=True,timeout=1800,env=env).stdout
         finally:
             subprocess.run(['git','-C',wt,'checkout','--','.']); subprocess.run(['git','-C',wt,'clean','-fdq'])
         props=sorted(set(re.findall(r'^VIOLATION property=(C\d+)',out,re.M)))
+        if 'type-check/load errors' in out:
+            # the change applies but no longer compiles on the current tree (a later fix uses
+            # what it removes): it is not a "compiles and passes the tests" change any more
+            print(n,'APPLIES BUT DOES NOT BUILD',flush=True)
+            m['applies_to_head']=False; m['detect_with']=[]
+            json.dump(m,open(mf,'w'),indent=1,ensure_ascii=False); continue
         m['detect_with']=props
-        json.dump(m,open(mf,'w'),indent=1)
+        m['applies_to_head']=True
+        json.dump(m,open(mf,'w'),indent=1,ensure_ascii=False)
         print(n,props,flush=True)
 finally:
     subprocess.run(['git','-C','/repo','worktree','remove','--force',wt])
